@@ -419,10 +419,10 @@ func (in *instance) step(o Op, sets []VarSet, dry *stepStats) (res string, st st
 				ops.ErrorAt = resolve(dry.opsCalls)
 			case "var_missing":
 				vars.Missing = f.Name
-			case "fn_error", "fn_panic":
-				fn.Kind, fn.At, fn.Msg = f.Kind, 1, f.At
+			case "fn_error", "fn_panic", "fn_both":
+				fn.Kind, fn.At, fn.Msg = f.Kind, max(1, f.At&0xff), f.At>>8
 			case "fn_error_plain":
-				fn.Kind, fn.At, fn.Msg = "fn_error", 1, f.At
+				fn.Kind, fn.At, fn.Msg = "fn_error", max(1, f.At&0xff), f.At>>8
 			}
 		}
 		in.calc.SetVariantOperations(ops)
@@ -519,7 +519,7 @@ func c05Fault(r *Rand, kind string, mode string) *Fault {
 		return &Fault{Kind: k, At: r.Intn(1 << 20)}
 	}
 	if kind == "calc" {
-		k := r.Pick([]string{"op_error", "var_missing", "fn_error", "fn_panic", "fn_error_plain"})
+		k := r.Pick([]string{"op_error", "var_missing", "fn_error", "fn_panic", "fn_error_plain", "fn_both"})
 		return &Fault{Kind: k, At: r.Intn(1 << 20), Name: r.Pick([]string{"a", "b", "c"})}
 	}
 	return nil
@@ -588,7 +588,8 @@ func c05GenTask(r *Rand, kind string, faults bool, first, second int) TaskPlan {
 				if o.S == "" || strings.TrimSpace(o.S) == "" {
 					o.S = "1"
 				}
-				o.S = name + "(" + o.S + ")"
+				o.S = faultyShape(r, name, o.S)
+				o.F.At = o.F.At&^0xff | faultyCallIndex(r, o.S, name) // low byte: which call of the delegate fails
 			}
 		}
 		tp.Ops = append(tp.Ops, o)
@@ -847,4 +848,34 @@ func (f *faultyState) NextToken(scanner sio.IScanner, tokenizer tokenizers.IToke
 		return tokenizers.NewToken(tokenizers.Word, "", scanner.PeekLine(), scanner.PeekColumn())
 	}
 	return nil
+}
+
+// faultyShape places calls of the failing function in an expression: around
+// it, next to it, twice, nested in another call, inside an array element.
+func faultyShape(r *Rand, name, expr string) string {
+	if strings.TrimSpace(expr) == "" {
+		expr = "1"
+	}
+	switch r.Intn(7) {
+	case 0:
+		return name + "(" + expr + ") + " + name + "(2)"
+	case 1:
+		return "Max(1, " + name + "(" + expr + "))"
+	case 2:
+		return "Array(1, " + name + "(" + expr + "), 3)[1]"
+	case 3:
+		return name + "(" + name + "(" + expr + "))"
+	case 4:
+		return "If(TRUE, " + name + "(1), " + name + "(" + expr + "))"
+	}
+	return name + "(" + expr + ")"
+}
+
+// faultyCallIndex picks which invocation of the delegate fails (1-based).
+func faultyCallIndex(r *Rand, text, name string) int {
+	n := strings.Count(text, name+"(")
+	if n < 1 {
+		n = 1
+	}
+	return 1 + r.Intn(n)
 }
